@@ -1,5 +1,6 @@
 import GlyModel.Smiles.Sem
 import GlyModel.Smiles.Assembly
+import GlyModel.Smiles.Tree
 /-
   Tokeniser for the SMILES subset GlyLES produces (organic-subset atoms, bracket atoms, ring closures incl. %nn,
   branches, bond symbols) and the per-merge certificate that ties the character-level assembly Model to the
@@ -114,5 +115,85 @@ def certifyKids : Nat → List Node → List ((Nat × List Char) × (Nat × List
     markers are still atoms, so they are closed too. -/
 def sameSem' (_me me1 me2 : List Char) : Bool := me1 == me2 || sameSem me1 me2
 end
+
+/-! ### Bridge from the character-level Model of `merge_int` to the token-level tree of `GlyModel.Smiles.Tree` -/
+
+/-- the marker atoms of `get_dummy_atoms` (any of the eight elements, with or without explicit H count) -/
+def isMkDummy (a : Atom) : Bool :=
+  Gen.dummyAtoms.any (fun m => isMarkerAtom m.1.2 a || isMarkerAtom m.2.2 a)
+
+def findMarker (sym : List Char) (ts : List Tok) : Option Atom :=
+  ts.findSome? (fun t => match t with | .atom a => if isMarkerAtom sym a then some a else none | _ => none)
+
+mutual
+/-- The residue tree as `merge_int` walks it: every residue's boundary string after the label walk of `to_smiles`, tokenised;
+    the k-th child paired with the k-th marker pair (O-marker if present in the string, else N-marker). -/
+def toTNode : Nat → Node → Nat → Option TNode
+  | 0, _, _ => none
+  | fuel + 1, .mk raw nrings kids, ringIndex =>
+    match tokenize (shiftSmiles raw ringIndex) with
+    | none => none
+    | some toks => (toTKids fuel kids Gen.dummyAtoms (ringIndex + max 1 nrings) toks).map (TNode.mk toks)
+def toTKids : Nat → List Node → List ((Nat × List Char) × (Nat × List Char)) → Nat → List Tok → Option (List (Atom × Bool × TNode))
+  | 0, _, _, _, _ => none
+  | _, [], _, _, _ => some []
+  | _, _ :: _, [], _, _ => none            -- a child without a marker pair would be dropped by `zip`: no certificate
+  | fuel + 1, kid :: kids, ((_, osym), (_, nsym)) :: ms, childIndex, toks =>
+    match toTNode fuel kid childIndex, toTKids fuel kids ms childIndex toks with
+    | some k, some rest =>
+      (match findMarker osym toks with
+       | some a => some ((a, false, k) :: rest)
+       | none =>
+         match findMarker nsym toks with
+         | some a => some ((a, true, k) :: rest)
+         | none => none)
+    | _, _ => none
+end
+
+/-- Whole-merge certificate: the tree of boundary strings passes `wfTree` and what the character-level Model of
+    `merge_int` returns (splices, `sanitize_smiles`) denotes the same molecule as the token-level `mergeTok`. -/
+def certifyTree (fuel : Nat) (node : Node) : Bool :=
+  match toTNode fuel node 0, mergeInt fuel node 0 with
+  | some t, .ok out =>
+    wfTree isMkDummy t &&
+    (match tokenize out with
+     | some to => (sem to).isSome && sem to == sem (mergeTok t)
+     | none => false)
+  | _, _ => false
+
+/-! ### Certificate on the strings the code itself produced (independent of the Model's label walk and offsets) -/
+
+/-- a residue as observed in `merge_int`: the string `Monomer.to_smiles` returned for it (labels already shifted) -/
+inductive ONode where
+  | mk (shifted : List Char) (kids : List ONode)
+deriving Inhabited
+
+mutual
+def obsTNode : ONode → Option TNode
+  | .mk sh kids =>
+    match tokenize sh with
+    | none => none
+    | some toks => (obsTKids kids Gen.dummyAtoms toks).map (TNode.mk toks)
+def obsTKids : List ONode → List ((Nat × List Char) × (Nat × List Char)) → List Tok → Option (List (Atom × Bool × TNode))
+  | [], _, _ => some []
+  | _ :: _, [], _ => none
+  | kid :: kids, ((_, osym), (_, nsym)) :: ms, toks =>
+    match obsTNode kid, obsTKids kids ms toks with
+    | some k, some rest =>
+      (match findMarker osym toks with
+       | some a => some ((a, false, k) :: rest)
+       | none =>
+         match findMarker nsym toks with
+         | some a => some ((a, true, k) :: rest)
+         | none => none)
+    | _, _ => none
+end
+
+/-- The observed residue strings form a well-formed tree and the string the **code** returned from `merge_int` denotes the
+    same molecule as the token-level assembly of that tree. -/
+def certifyObserved (node : ONode) (out : List Char) : Bool :=
+  match obsTNode node, tokenize out with
+  | some t, some to => wfTree isMkDummy t && (sem to).isSome && sem to == sem (mergeTok t)
+  | _, _ => false
 
 end Gly.Smi
